@@ -1,23 +1,51 @@
 (* CloseconnRun.v — line-protocol adapter for Model/CloseConn.v (harness glue, executable).
-   Case line:  closeconn batch <scenario,scenario,...>      scenario = <max>.<broker>.<pre>.<closes>
+   Case line:  closeconn batch <scenario,scenario,...>
+   scenario = <max>.<broker>.<pre>.<closes>           closing a connection
      broker: fail | good | hold | holdgood   (what the first rendezvous attempt of the connect loop meets)
      pre:    none | sess | pconn | stream    (what has happened to the connection before Close is called)
      closes: c | cc | c2                     (Close once, twice in a row, two overlapping calls)
-   The Go driver (harness/overlay/client/lib/zz_verif_c15_test.go, c15RunCloseScenario) runs the scenario through
-   NewSnowflakeClient / Transport.Dial / SnowflakeConn.Close against a scripted broker.
-   Result per scenario: ret=<returned>/<calls>;inflight=<a Close returned with the attempt in flight>;melt=;open=<live peers>;
-   after=<rendezvous attempts begun after Close>;late=<same: the model has no clock, every further attempt of the loop is late> *)
+     Result: ret=<returned>/<calls>;inflight=<a Close returned with the attempt in flight>;melt=;open=<live peers>;
+       after=<rendezvous attempts begun after Close>;late=<same: the model has no clock, every further attempt of the loop is late>
+   scenario = <max>.<failure>.<k>.retry               failed attempts are retried
+     the first k rendezvous attempts of the connect loop fail in the given way, attempt k+1 meets a proxy:
+     failure: ice      unusable ICE configuration (NewPeerConnection refuses it; permanent: attempt k+1 fails too)
+              unreach  the broker cannot be talked to (no HTTP answer)
+              refuse   the broker answers with an HTTP error
+              badjson  the broker's answer is not a poll response
+              badsdp   the answer is not a session description the peer connection accepts
+              noopen   the proxy answers but its data channel never opens
+     what each attempt does is Model/Connect.v's new_peer CV1 with the outcomes of the kind; the attempt is the
+     collector of the Peers machine being at C_Catching; Conn_Ok = Catch_ok, anything else = Catch_err.
+     Result: att=<attempts made>;ev=<events of all attempts, '+'-separated>;peer=<live peers held>;ret=;melt=;open=
+   every scenario ends with  ;term=<a listener rendering the events as the client binary does panicked>;nilerr=<failure
+   events without an error>
+   The Go driver (harness/overlay/client/lib/zz_verif_c15_test.go, c15RunCloseScenario / c15RunRetryScenario) runs the
+   scenario through NewSnowflakeClient / Transport.Dial / SnowflakeConn.Close against a scripted broker.
+   !fuel = a run to quiescence ran out of fuel; !disabled = a step the adapter asked for was not enabled: neither is
+   ever passed off as a result. *)
 From Coq Require Import List NArith Bool Arith String.
-From Snow Require Import Lib.Wire Model.Peers Model.CloseConn.
+From Snow Require Import Lib.Wire Model.Peers Model.Connect Model.CloseConn.
+From Snow Require Run.ConnectRun.
 Import ListNotations.
 Open Scope N_scope.
 
 Definition FUEL : nat := 200%nat.
 
-Definition cstep' (kv : kversion) (c : kstate) (l : clabel) : kstate :=
-  match cstep kv V1 c l with Some c' => c' | None => c end.
+(* the machine state plus what the adapter must not hide *)
+Record kx := mkX { kc : kstate; xfuel : bool; xdis : bool }.
 
-Definition settle_c (kv : kversion) (c : kstate) : kstate := csettle kv V1 FUEL c.
+Definition csettled (kv : kversion) (c : kstate) : bool :=
+  match csettle_once kv V1 c with None => true | Some _ => false end.
+
+Definition x_step (kv : kversion) (x : kx) (l : clabel) : kx :=
+  match cstep kv V1 (kc x) l with
+  | Some c' => mkX c' (xfuel x) (xdis x)
+  | None => mkX (kc x) (xfuel x) true
+  end.
+
+Definition x_settle (kv : kversion) (x : kx) : kx :=
+  let c' := csettle kv V1 FUEL (kc x) in
+  mkX c' (xfuel x || negb (csettled kv c')) (xdis x).
 
 Definition catching (c : kstate) : bool := match col (ps c) with C_Catching => true | _ => false end.
 
@@ -25,30 +53,34 @@ Definition nat_print (n : nat) : bytes := dec_print (N.of_nat n).
 
 (* one turn of connectLoop: Collect, the rendezvous (if it gets that far) answered ok / not; returns whether an
    attempt was made *)
-Definition loop_turn (kv : kversion) (c : kstate) (answer : option bool) : kstate * bool :=
-  let c1 := settle_c kv (cstep' kv c (L_P Col_lock)) in
-  if catching c1 then
+Definition loop_turn (kv : kversion) (x : kx) (answer : option bool) : kx * bool :=
+  let x1 := x_settle kv (x_step kv x (L_P Col_lock)) in
+  if catching (kc x1) then
     match answer with
-    | Some ok => (settle_c kv (cstep' kv (settle_c kv (cstep' kv c1 (L_P (if ok then Catch_ok else Catch_err)))) (L_P Col_return)), true)
-    | None => (c1, true)
+    | Some ok => (x_settle kv (x_step kv (x_settle kv (x_step kv x1 (L_P (if ok then Catch_ok else Catch_err)))) (L_P Col_return)), true)
+    | None => (x1, true)
     end
-  else (settle_c kv (cstep' kv c1 (L_P Col_return)), false).
+  else (x_settle kv (x_step kv x1 (L_P Col_return)), false).
 
 (* the loop goes round again only while Melted() is open *)
-Fixpoint loop_more (kv : kversion) (n : nat) (c : kstate) : kstate * nat :=
+Fixpoint loop_more (kv : kversion) (n : nat) (x : kx) : kx * nat :=
   match n with
-  | O => (c, O)
+  | O => (x, O)
   | S n' =>
-      if melted (ps c) then (c, O)
-      else let '(c1, att) := loop_turn kv c (Some false) in
-           let '(c2, k) := loop_more kv n' c1 in
-           (c2, ((if att then 1 else 0) + k)%nat)
+      if melted (ps (kc x)) then (x, O)
+      else let '(x1, att) := loop_turn kv x (Some false) in
+           let '(x2, k) := loop_more kv n' x1 in
+           (x2, ((if att then 1 else 0) + k)%nat)
   end.
 
 Definition early_return (c : kstate) : bool := existsb returned (closers c) && catching c.
 
+Definition flags (x : kx) (r : bytes) : bytes :=
+  if xfuel x then bs "!fuel" else if xdis x then bs "!disabled"
+  else if negb (csettled K_pinned (kc x)) then bs "!fuel" else r.
+
 Definition scenario (kv : kversion) (max : nat) (kind pre closes : bytes) : option bytes :=
-  let c0 := kinit max in
+  let x0 := mkX (kinit max) false false in
   let first :=
     if beq kind (bs "fail") then Some (Some false)
     else if beq kind (bs "good") then Some (Some true)
@@ -65,39 +97,104 @@ Definition scenario (kv : kversion) (max : nat) (kind pre closes : bytes) : opti
     else None in
   match first, pre_l, ncalls with
   | Some answer, Some pl, Some n =>
-      let '(c1, _) := loop_turn kv c0 answer in
+      let '(x1, _) := loop_turn kv x0 answer in
       (* the data path takes the first snowflake *)
-      let c2 := settle_c kv (cstep' kv c1 (L_P Pop_call)) in
-      let c3 := fold_left (cstep' kv) pl c2 in
+      let x2 := x_settle kv (x_step kv x1 (L_P Pop_call)) in
+      let x3 := fold_left (x_step kv) pl x2 in
       (* the application closes the connection *)
       (* the broker lets the held poll go *)
-      let release := fun c : kstate =>
-        if catching c then
-          settle_c kv (cstep' kv (settle_c kv (cstep' kv c (L_P (if beq kind (bs "holdgood") then Catch_ok else Catch_err)))) (L_P Col_return))
-        else c in
-      let '(c5, e1) :=
+      let release := fun x : kx =>
+        if catching (kc x) then
+          x_settle kv (x_step kv (x_settle kv (x_step kv x (L_P (if beq kind (bs "holdgood") then Catch_ok else Catch_err)))) (L_P Col_return))
+        else x in
+      let '(x5, e1) :=
         if beq closes (bs "c2") then
-          let c := settle_c kv (cstep' kv (cstep' kv c3 L_Close) L_Close) in (release c, early_return c)
+          let x := x_settle kv (x_step kv (x_step kv x3 L_Close) L_Close) in (release x, early_return (kc x))
         else if beq closes (bs "cc") then
           (* the second call begins when the first has returned *)
-          let ca := settle_c kv (cstep' kv c3 L_Close) in
-          let cb := settle_c kv (cstep' kv (release ca) L_Close) in (release cb, early_return ca || early_return cb)
-        else let c := settle_c kv (cstep' kv c3 L_Close) in (release c, early_return c) in
+          let xa := x_settle kv (x_step kv x3 L_Close) in
+          let xb := x_settle kv (x_step kv (release xa) L_Close) in (release xb, early_return (kc xa) || early_return (kc xb))
+        else let x := x_settle kv (x_step kv x3 L_Close) in (release x, early_return (kc x)) in
+      let c5 := kc x5 in
       let ret := List.length (filter returned (closers c5)) in
       let open := List.length (live_peers (ps c5)) in
       let m := melted (ps c5) in
-      let '(_, after) := loop_more kv 2 c5 in
-      Some (bs "ret=" ++ nat_print ret ++ bs "/" ++ nat_print n ++ bs ";inflight=" ++ bool_print e1
+      let '(x6, after) := loop_more kv 2 x5 in
+      Some (flags x6
+           (bs "ret=" ++ nat_print ret ++ bs "/" ++ nat_print n ++ bs ";inflight=" ++ bool_print e1
             ++ bs ";melt=" ++ bool_print m ++ bs ";open=" ++ nat_print open
-            ++ bs ";after=" ++ nat_print after ++ bs ";late=" ++ nat_print after)
+            ++ bs ";after=" ++ nat_print after ++ bs ";late=" ++ nat_print after
+            ++ bs ";term=0;nilerr=0"))
   | _, _, _ => None
+  end.
+
+(* ---- failed attempts are retried *)
+
+Definition good_outcomes : outcomes := mkO true true true true true true true.
+
+Definition fail_outcomes (kind : bytes) : option outcomes :=
+  if beq kind (bs "ice") then Some (mkO false true true true true true true)
+  else if beq kind (bs "unreach") || beq kind (bs "refuse") || beq kind (bs "badjson")
+       then Some (mkO true true true true false true true)
+  else if beq kind (bs "badsdp") then Some (mkO true true true true true false true)
+  else if beq kind (bs "noopen") then Some (mkO true true true true true true false)
+  else None.
+
+(* one turn of connectLoop in which the rendezvous attempt, if Collect gets that far, is Connect.new_peer with the
+   given outcomes *)
+Definition attempt_turn (kv : kversion) (x : kx) (o : outcomes) : kx * list cevent * bool :=
+  let x1 := x_settle kv (x_step kv x (L_P Col_lock)) in
+  if catching (kc x1) then
+    let '(r, cs) := new_peer CV1 o in
+    let ok := match r with Conn_Ok => true | _ => false end in
+    (x_settle kv (x_step kv (x_settle kv (x_step kv x1 (L_P (if ok then Catch_ok else Catch_err)))) (L_P Col_return)),
+     events cs, true)
+  else (x_settle kv (x_step kv x1 (L_P Col_return)), [], false).
+
+Fixpoint attempts (kv : kversion) (x : kx) (os : list outcomes) : kx * list cevent * nat :=
+  match os with
+  | [] => (x, [], O)
+  | o :: os' =>
+      let '(x1, ev1, att) := attempt_turn kv x o in
+      let '(x2, ev2, n) := attempts kv x1 os' in
+      (x2, ev1 ++ ev2, ((if att then 1 else 0) + n)%nat)
+  end.
+
+Definition retry_scenario (kv : kversion) (max : nat) (kind : bytes) (k : nat) : option bytes :=
+  match fail_outcomes kind with
+  | None => None
+  | Some fo =>
+      let last := if beq kind (bs "ice") then fo else good_outcomes in
+      let x0 := mkX (kinit max) false false in
+      (* the data path waits for a snowflake from the start *)
+      let x1 := x_settle kv (x_step kv x0 (L_P Pop_call)) in
+      let '(x2, evs, att) := attempts kv x1 (repeat fo k ++ [last]) in
+      let peer := List.length (live_peers (ps (kc x2))) in
+      let x3 := x_settle kv (x_step kv x2 L_Close) in
+      let c3 := kc x3 in
+      Some (flags x3
+           (bs "att=" ++ nat_print att
+            ++ bs ";ev=" ++ (match evs with [] => bs "-" | _ => join [43] (map ConnectRun.event_print evs) end)
+            ++ bs ";peer=" ++ nat_print peer
+            ++ bs ";ret=" ++ nat_print (List.length (filter returned (closers c3))) ++ bs "/1"
+            ++ bs ";melt=" ++ bool_print (melted (ps c3))
+            ++ bs ";open=" ++ nat_print (List.length (live_peers (ps c3)))
+            ++ bs ";term=" ++ bool_print (negb (forallb render_ok evs))
+            ++ bs ";nilerr=" ++ nat_print (List.length (filter (fun e => negb (render_ok e)) evs))))
   end.
 
 Definition scenario_line (kv : kversion) (t : bytes) : option bytes :=
   match split_on DOT t with
   | [m; kind; pre; closes] =>
       match dec_parse_nat m with
-      | Some max => if (max <? 1)%nat || (64 <? max)%nat then None else scenario kv max kind pre closes
+      | Some max =>
+          if (max <? 1)%nat || (64 <? max)%nat then None
+          else if beq closes (bs "retry") then
+            match dec_parse_nat pre with
+            | Some k => if (8 <? k)%nat then None else retry_scenario kv max kind k
+            | None => None
+            end
+          else scenario kv max kind pre closes
       | None => None
       end
   | _ => None
